@@ -1227,6 +1227,9 @@ class AEval(dtable.Eval):
                 if key in self.path_builtins:
                     return self.path_builtins[key](args)
             segs = f["path"].split("::")
+            if last in ("try_from", "from") and len(segs) == 2 and re.match(r"^([A-Z]|[ui](8|16|32|64|128|size)|<\$?\w+>)$", segs[0]) and ("TryFrom::" + last if last == "try_from" else "From::from") in self.path_builtins:
+                # `U::try_from(x)` / `u8::try_from(x)`: the std conversion, modelled like `TryFrom::try_from(x)`
+                return self.path_builtins["TryFrom::try_from" if last == "try_from" else "From::from"](args)
             if len(segs) >= 2 and segs[-2] in ("RefCell", "Cell", "Mutex", "RwLock", "Rc", "Arc", "Box", "Cow", "Some", "OnceCell") and last in ("new", "from") and len(args) == 1 \
                     and "::".join(segs[-2:]) not in self.funcs:
                 return args[0]
@@ -1615,8 +1618,8 @@ class AEval(dtable.Eval):
             newr, res = self.mut_builtins[m](r, args)
             self._assign_place(rnode, newr, env)
             return res
-        if m in self.builtins:
-            res = self.builtins[m](r, args)
+        res = self.builtins[m](r, args) if m in self.builtins else NotImplemented
+        if res is not NotImplemented:          # (a model returns NotImplemented for a receiver it does not model: the code's own method of that name)
             if isinstance(res, tuple) and res and res[0] == "mutargs":
                 # a modelled callee that writes through `&mut` arguments: {argument index: new value}
                 for idx, nv in res[2].items():
